@@ -137,8 +137,15 @@ class Check:
         os.makedirs(EVID, exist_ok=True)
         with open(os.path.join(EVID, self.pid + ".json"), "w") as f:
             json.dump(ev, f, indent=1, default=str)
+        shown = 0
         for l in lines:
+            if l.startswith("VIOLATION") or l.startswith("  rule"):
+                shown += 1
+                if shown > 24:
+                    continue
             print(l)
+        if shown > 24:
+            print("  ... %d more violations (all replay files are written)" % (len(real) - 12))
         print("%s %s: %d rule instances (%d distinct non-trivial), %d violations, %d known findings, %.1fs"
               % (self.pid, self.tier, n_inst, nontrivial, len(real), len(lines) - 2 * len(real), time.time() - self.t0))
         return 1 if real else 0
